@@ -40,10 +40,12 @@ theorem pollRecv_version (t : St) (σ : Builder.BState) : (pollRecv t σ).1.vers
     | none =>
       simp only
       by_cases ha : t.avail.isEmpty = true
-      · simp [ha]
+      · simp only [ha, if_true]
+        split <;> simp
       · simp only [ha]
         rcases Builder.feed σ1 (rest1 ++ t.avail) with ⟨σ2, rest2, out2⟩
         cases out2 <;> simp
+        split <;> simp
 
 /-- the live receive future of state `s` (builder σ), polled on the bytes `s` holds, returns `r` -/
 def Received (s : St) (σ : Builder.BState) (r : Builder.Response) : Prop :=
@@ -104,7 +106,7 @@ theorem C18_rejected (s' : St) (rf : Bool) (h : s'.pc = .failed) : step s' rf = 
 
 /-- the first `idle` is written from `spawned`, i.e. after the verdict (or when no password is used) -/
 theorem C18_idle_after_accept (s : St) (rf : Bool) (hpc : s.pc = .spawned) (hw : s.werr = none) :
-    step s rf = some { (emit s (.wrote IDLE)) with pc := .idling .initial, fresh := true } := by
-  unfold step; rw [hpc]; simp [write, hw]
+    step s rf = some { (emit s (.wrote IDLE)) with pc := .idling s.bstash, fresh := true } := by
+  unfold step; rw [hpc]; simp [write, hw, emit]
 
 end Mpd.C18
